@@ -68,7 +68,10 @@ class _AddOrRemoveNotifier:
         self.dispatcher = dispatcher
         self.remove = remove
 
-        # list of (notifier, observable)
+        # Journal of completed actions, in execution order, so that they can
+        # be reverted (last first) if a later action fails. Each item is either
+        # a tuple (notifier, observable), or a dict of keyword arguments of a
+        # completed nested call to ``add_or_remove_notifiers``.
         self._processed = []
 
     def __call__(self):
@@ -95,7 +98,12 @@ class _AddOrRemoveNotifier:
         except Exception:
             # Undo and then reraise
             while self._processed:
-                notifier, observable = self._processed.pop()
+                item = self._processed.pop()
+                if isinstance(item, dict):
+                    # A nested call that had completed: revert all of it.
+                    add_or_remove_notifiers(**item, remove=not self.remove)
+                    continue
+                notifier, observable = item
                 if self.remove:
                     notifier.add_to(observable)
                 else:
@@ -109,28 +117,30 @@ class _AddOrRemoveNotifier:
         observer. e.g. for handing trait_added event.
         """
         for extra_graph in self.graph.node.iter_extra_graphs(self.graph):
-            add_or_remove_notifiers(
+            kwargs = dict(
                 object=self.object,
                 graph=extra_graph,
                 handler=self.handler,
                 target=self.target,
                 dispatcher=self.dispatcher,
-                remove=self.remove,
             )
+            add_or_remove_notifiers(**kwargs, remove=self.remove)
+            self._processed.append(kwargs)
 
     def _add_or_remove_children_notifiers(self):
         """ Recursively add or remove notifiers for the children ObserverGraph.
         """
         for child_graph in self.graph.children:
             for next_object in self.graph.node.iter_objects(self.object):
-                add_or_remove_notifiers(
+                kwargs = dict(
                     object=next_object,
                     graph=child_graph,
                     handler=self.handler,
                     target=self.target,
                     dispatcher=self.dispatcher,
-                    remove=self.remove,
                 )
+                add_or_remove_notifiers(**kwargs, remove=self.remove)
+                self._processed.append(kwargs)
 
     def _add_or_remove_maintainers(self):
         """ Add or remove notifiers for maintaining children notifiers when
